@@ -202,7 +202,7 @@ func MakeAF(kind string, idx int) *astits.PacketAdaptationField {
 	case "noroomstuffpcr":
 		return &astits.PacketAdaptationField{HasPCR: true, PCR: cr(int64(idx)*3003+11, 2), StuffingLength: 170}
 	case "opcr": // OPCR without PCR, with the other fixed-size parts
-		return &astits.PacketAdaptationField{HasOPCR: true, OPCR: cr(int64(idx)*7+0x1_0000_0001, 0x1ff), HasSplicingCountdown: true, SpliceCountdown: -3, DiscontinuityIndicator: true}
+		return &astits.PacketAdaptationField{HasOPCR: true, OPCR: cr(int64(idx)*7+0x1_0000_0001, 0x1ff), HasSplicingCountdown: true, SpliceCountdown: 0xfd, DiscontinuityIndicator: true} // 0xfd: the form the parser returns for a negative countdown
 	case "splice":
 		return &astits.PacketAdaptationField{HasSplicingCountdown: true, SpliceCountdown: 5, ElementaryStreamPriorityIndicator: true}
 	case "ext":
